@@ -126,6 +126,16 @@ CLAIMED["C37"] = (
     COMMON_NOTE + "Outputs()/OutDir() are assumed pure functions of the target; filepath.Join is uninterpreted.",
     "contract-based deductive verification (own VC generator + SMT, known-finding region)", "6/C37")
 
+CLAIMED["C21"] = (
+    "Proof of glob()'s filtering kernels: isInDirectories / isBathPathOf are component-wise containment; shouldExcludeMatch excludes a match "
+    "exactly when SOME exclude applies, with the base-name/full-path mode chosen per exclude (matchers abstracted as pure functions); the walk "
+    "callback records every directory holding a BUILD file as a sub-package and skips plz-out; isHidden is correct on the base name — the "
+    "statement's 'anything inside hidden directories' is proved outside the recorded known-finding region (hidden directory, non-hidden base "
+    "name) with a canary obligation. Two clauses of toRegexString (`?` becomes `.`, literal dots are escaped) are BOUNDED stand-ins executed "
+    "against the real function on an enumerated input space (not proved). Kernel-only: filepath.Match / regexp semantics and WalkDir are library code.",
+    COMMON_NOTE + "patternToMatcher and matcher.Match are uninterpreted pure functions; filepath.Base/Dir/Join uninterpreted.",
+    "contract-based deductive verification (+ bounded stand-in for two string-rewriting clauses)", "6/C21")
+
 NOT_APPLICABLE = {
     "C05": "liveness / whole-run exit status under all schedules: no per-call contract expresses it (safety fragment is under C04)",
     "C30": "OS process groups, signals and wall-clock bounds; goroutines and select are outside the sequential contract model",
